@@ -38,6 +38,9 @@ type wsView struct {
 	DeclCom   map[string]bool
 	Formats   any
 	PerFileTemplates map[string]map[string][]analyzer.PostingTemplate
+	// what the server serves from this view: the analysis over the resolved
+	// tree (payee templates "later file wins", names in order of first use)
+	Served *analyzer.AnalysisResult
 }
 
 func viewOf(w *workspace.Workspace) *wsView {
@@ -48,6 +51,9 @@ func viewOf(w *workspace.Workspace) *wsView {
 		}
 	}
 	sort.Strings(v.Members)
+	if r := w.GetResolved(); r != nil && r.Primary != nil {
+		v.Served = analyzer.New().AnalyzeResolved(r)
+	}
 	return v
 }
 
@@ -111,6 +117,29 @@ func compareViews(sut, fresh *wsView, memberTexts map[string]string) (string, st
 	for _, f := range flds {
 		if !reflect.DeepEqual(f.x, f.y) {
 			return f.name, fmt.Sprintf("incremental=%v rebuild=%v", f.x, f.y)
+		}
+	}
+	// what is served from the resolved tree (walks the files in order)
+	if (sut.Served == nil) != (fresh.Served == nil) {
+		return "served-view", fmt.Sprintf("incremental has a resolved tree: %v, rebuild: %v", sut.Served != nil, fresh.Served != nil)
+	}
+	if sut.Served != nil {
+		if !reflect.DeepEqual(sut.Served.PayeeTemplates, fresh.Served.PayeeTemplates) {
+			for _, payee := range keysOf(fresh.Served.PayeeTemplates) {
+				if !reflect.DeepEqual(sut.Served.PayeeTemplates[payee], fresh.Served.PayeeTemplates[payee]) {
+					return "served-payee-templates", fmt.Sprintf("the posting template served for payee %q is %v, a rebuild serves %v", payee, sut.Served.PayeeTemplates[payee], fresh.Served.PayeeTemplates[payee])
+				}
+			}
+			return "served-payee-templates", "the incremental view serves templates for payees a rebuild has none for"
+		}
+		for _, f := range []fld{
+			{"served-payees", sut.Served.Payees, fresh.Served.Payees},
+			{"served-commodities", sut.Served.Commodities, fresh.Served.Commodities},
+			{"served-tags", sut.Served.Tags, fresh.Served.Tags},
+		} {
+			if !reflect.DeepEqual(f.x, f.y) {
+				return f.name, fmt.Sprintf("incremental=%v rebuild=%v", f.x, f.y)
+			}
 		}
 	}
 	// payee templates: a rebuild is itself order-dependent when two member files
